@@ -577,6 +577,14 @@ def canonical_keys_rule(ctx, rule: str) -> None:
                 isinstance(c, ast.Call) and isinstance(c.func, ast.Attribute) and c.func.attr in ("glob", "rglob") and isinstance(c.func.value, ast.Call)
                 and unparse(c.func.value.func).endswith("Path") for c in ast.walk(n.value)):
             glob_vars.add(n.targets[0].id)
+    # the files of an entry are those its text names: the glob is matched with pathlib's defaults (no case folding, no extra roots)
+    for c in ast.walk(ge.node):
+        if isinstance(c, ast.Call) and isinstance(c.func, ast.Attribute) and c.func.attr in ("glob", "rglob", "iglob"):
+            widened = [kw for kw in c.keywords if kw.arg in ("case_sensitive", "recurse_symlinks", "include_hidden", "recursive", "root_dir")
+                       and not (kw.arg == "case_sensitive" and isinstance(kw.value, ast.Constant) and kw.value.value in (None, True))]
+            ctx.check(rule, not widened, f"_iter_glob_expanded_file_patterns L{c.lineno}: glob with default matching", "config._iter_glob_expanded_file_patterns: the configured glob is matched with widened rules",
+                      f"`{unparse(c)[:80]}`: files whose names differ from the configured text (letter case, other roots) are configured too and get rewritten although the configuration does not name them",
+                      loc=ge.loc(c), witness={"file_patterns": {"version.txt": ["{version}"]}, "also rewritten": "VERSION.txt"})
     for y in ys:
         ctx.require(isinstance(y.value, ast.Tuple) and len(y.value.elts) == 2, "glob expansion yield shape changed")
         key = y.value.elts[0]
